@@ -6,3 +6,16 @@ from django.db import models
 
 class TagsField(models.ManyToManyField):
     pass
+
+
+class ShortCodeField(models.CharField):
+    """project-defined column fields (same column types as their bases): several of them in one module, so that a
+    written evolution has to import more than one name from it"""
+
+
+class CountField(models.IntegerField):
+    pass
+
+
+class AmountField(models.IntegerField):
+    pass
